@@ -27,7 +27,7 @@ prop( 'C05', [ 'S-STATUS', 'D-VALIDATE', 'W-ATTR', 'T-ALLOWED', 'T-TYPENAMES', '
       not_decided='that values read back equal the converted values written (value/history dependent).',
       technique='constant typestate on a statement CFG with exception edges; dominance / must-pass-through with correlated branches; service feasibility by test folding; table interval containment' )
 
-prop( 'C12', [ 'T-CLIENT-TYPES', 'P-BUNDLE', 'P-FRESH', 'T-PATHSYNTAX', 'S-COMPLETE', 'T-OPOFFSET', 'T-PATHDEFAULTS', 'F-CLIENT', 'T-OPVALUES', 'K-TIMEOUT' ],
+prop( 'C12', [ 'T-CLIENT-TYPES', 'P-BUNDLE', 'P-FRESH', 'T-PATHSYNTAX', 'S-COMPLETE', 'T-OPOFFSET', 'T-PATHDEFAULTS', 'F-CLIENT', 'T-OPVALUES', 'K-TIMEOUT', 'K-VALIDATE' ],
       decides='T-OPVALUES: the effective options of the reader that splits a write\'s value list are comma separator, double-quote quoting and skipinitialspace (blank-padded lists mean the values they spell).  T-PATHSYNTAX also: format_path emits an element index at the component it follows (the symbolic branch flushes a pending index), so Foo[1].Boo formats and parses back to the same segments.  P-BUNDLE: in connector.issue the keep-collecting condition conjoins the size test with equality of both route_path and '
               'send_path with those of the bundle, every yielded record carries ( index, sender_context ) of its wire request, sender_context is '
               'always derived from index, and index advances at most once per operation and after every flushed bundle; T-PATHSYNTAX: every '
@@ -37,7 +37,7 @@ prop( 'C12', [ 'T-CLIENT-TYPES', 'P-BUNDLE', 'P-FRESH', 'T-PATHSYNTAX', 'S-COMPL
       not_decided='equality of result sequences across depth/bundling settings (dynamic).',
       technique='table extraction from AST + interval containment; guard-shape checks' )
 
-prop( 'C16', [ 'T-RESERVED', 'D-DELEGATE', 'D-RESOLVE', 'D-UNPACK', 'D-ITER' ],
+prop( 'C16', [ 'T-RESERVED', 'D-DELEGATE', 'D-RESOLVE', 'D-UNPACK', 'D-ITER', 'D-ATOMIC' ],
       decides='D-ITER: key iteration descends only into values tested to be levels - a list only under a test covering every element.  T-RESERVED also: the leaf store and the creation of an interior level ( super().setdefault( name, dotdict() )) are both dominated, on the CFG of __setitem__, by the refusing test of the name against __invalid_keys__ / the dunder prefix.  T-RESERVED: every non-dunder name that ordinary attribute lookup finds on a dotdict before __getattr__ (methods '
               'and class attributes of dotdict_base plus dict\'s public API) is refused as a key by the guarded leaf store; '
               'D-DELEGATE: attribute access, get, setdefault and membership are defined through __getitem__/__setitem__ and all '
@@ -268,7 +268,7 @@ prop( 'C15', [ 'B-ROUTE', 'D-REFUSE', 'C-MAIN', 'S-STATUS', 'T-SEGMENTS', 'P-BUN
       not_decided='textual route-path parsing (string -> segments) over all strings.',
       technique='exhaustive evaluation of a boolean AST over a finite abstract domain (decision-table check); dominance on the CFG' )
 
-prop( 'C01', [ 'T-TYPES', 'L-AGREE', 'L-DEFAULT', 'L-CODEC', 'T-SEGMENTS', 'T-NCP', 'K-NCPSTATE', 'A-OFFSETS', 'G-FRAME', 'L-SPEC', 'X-SERVICES', 'G-PRIMS', 'G-INIT', 'K-STALEMEMO', 'K-FOWIDTH', 'L-FRESH', 'L-PADSIZE', 'L-TEXTCODEC', 'T-TYPEDLOOP', 'L-SOCKADDR' ],
+prop( 'C01', [ 'T-TYPES', 'L-AGREE', 'L-DEFAULT', 'L-CODEC', 'T-SEGMENTS', 'T-NCP', 'K-NCPSTATE', 'A-OFFSETS', 'G-FRAME', 'L-SPEC', 'X-SERVICES', 'G-PRIMS', 'G-INIT', 'K-STALEMEMO', 'K-FOWIDTH', 'L-FRESH', 'L-PADSIZE', 'L-TEXTCODEC', 'T-TYPEDLOOP', 'L-SOCKADDR', 'L-PRODUCIBLE' ],
       decides='T-TYPEDLOOP: every element loop of typed_data is closed on its own type.  L-TEXTCODEC: per codec class the character set of .encode() in the producer equals decode= of its parser.  L-FRESH: inside every loop of a produce() a local assigned in the loop is assigned on every path of the iteration before it is read (accumulators excepted) - no element of a repetition is emitted with the value computed for the element before it.  L-PADSIZE: a size field counted in words of a padded payload is computed from the payload AFTER the pad has been appended (every path from the pad to the emission of the size passes the size computation, never the reverse).  layout-agreement clauses.  T-TYPES: every CIP scalar class has the spec\'s (type code, width, signedness, little-endian byte order), '
               'TYPE.produce packs and state_struct unpacks with the class format, TYPES_SUPPORTED and the 14-row typed_data dispatch are '
               'consistent; L-AGREE: for each of the 24 registered service machines, every layout variant the producer branch can emit '
